@@ -175,6 +175,7 @@ class Conn:
         self.idle_updates: List[Tuple[int, bool]] = []
         self.write_fail_at: Optional[int] = None  # fail the n-th write (0-based) and all later ones
         self.paused = False  # peer stopped reading: writes park until resume()
+        self.pause_at: Optional[int] = None  # ... or from the n-th write (0-based) on
         self._resume = self.ctx.event_class()
         self.inq = Queue(self.sched, 0)
         self.proto = ProtocolWrapper(app, self.config, self.ctx, self.tg, ConnectionState(dict(state or {})), ssl,
@@ -195,7 +196,8 @@ class Conn:
 
     async def protocol_send(self, event) -> None:
         if isinstance(event, RawData):
-            if self.paused:
+            if self.paused or (self.pause_at is not None and len(self.writes) >= self.pause_at):
+                self.parked_writes = getattr(self, "parked_writes", 0) + 1
                 await self._resume.wait()
             n = len(self.writes)
             if self.server_closed or (self.write_fail_at is not None and n >= self.write_fail_at):
@@ -237,6 +239,7 @@ class Conn:
 
     def resume(self) -> None:
         self.paused = False
+        self.pause_at = None
 
         async def go():
             await self._resume.set()
